@@ -390,7 +390,10 @@ pub fn emit_stress(out: &mut Out, p: &StressPlan) {
     // flush records: (thread, entries this thread had appended before the request, log length when seen ready)
     let flushes: Arc<Mutex<Vec<(u64, u64, u64)>>> = Arc::new(Mutex::new(vec![]));
     let t0 = Instant::now();
+    // flush requests made while the writer was held and still pending when their thread finished: (thread, before, future)
+    let mut leftover: Vec<(u64, u64, metrique_writer::sink::FlushWait)> = vec![];
     std::thread::scope(|sc| {
+        let mut producers = vec![];
         for t in 1..=p.threads as u64 {
             let h = h.clone();
             let dropped = dropped.clone();
@@ -400,7 +403,7 @@ pub fn emit_stress(out: &mut Out, p: &StressPlan) {
             let kind = p.kind;
             let (n, fe, stall) = (p.per_thread as u64, p.flush_every as u64, p.stall);
             let mut rng = Rng::new(p.seed ^ t);
-            sc.spawn(move || {
+            producers.push(sc.spawn(move || {
                 let mut pending: Vec<(u64, metrique_writer::sink::FlushWait)> = vec![];
                 for i in 0..n {
                     let e = Ent { thread: t, seq: i, dropped: Some(dropped.clone()) };
@@ -445,12 +448,41 @@ pub fn emit_stress(out: &mut Out, p: &StressPlan) {
                     for (before, _) in pending {
                         flushes.lock().unwrap().push((t, before, u64::MAX));
                     }
+                    vec![]
+                } else {
+                    pending.into_iter().map(|(before, f)| (t, before, f)).collect::<Vec<_>>()
                 }
-            });
+            }));
+        }
+        for pr in producers {
+            leftover.extend(pr.join().unwrap());
         }
     });
     let produce_time = t0.elapsed();
     gate.open();
+    // the requests made during the stall complete now that the writer runs: each must then cover what its thread had
+    // appended before it (bounded wait: C04's liveness half)
+    if p.seed & 2 == 0 {
+        // (every other stalled run goes straight to the shutdown with the requests dropped, as a racing shutdown would)
+        leftover.clear();
+    } else {
+        let lim = Instant::now() + Duration::from_secs(20);
+        while !leftover.is_empty() && Instant::now() < lim {
+            leftover.retain_mut(|(t, before, f)| {
+                if poll_once(f) {
+                    let pos = log.lock().unwrap().len() as u64;
+                    flushes.lock().unwrap().push((*t, *before, pos));
+                    false
+                } else {
+                    true
+                }
+            });
+            std::thread::yield_now();
+        }
+        for (t, before, _) in leftover.drain(..) {
+            flushes.lock().unwrap().push((t, before, u64::MAX));
+        }
+    }
     // every other run (by the case's seed) drops the last queue handle and the join handle from a frame that is
     // unwinding from a panic: shutdown must drain, flush and close all the same
     let unwinding = p.seed & 1 == 1;
@@ -666,6 +698,17 @@ pub fn run_family_with(ctx: &Ctx, focus: Focus, rule: &str, between: &mut dyn Fn
         for _ in 0..n_stress / 2 {
             let p = gen_stress(&mut rng, focus, ctx.tier_thorough);
             emit_stress(&mut u, &p);
+        }
+        // a backlog of thousands of entries behind a held writer, then one flush request (the drain passes are long)
+        if focus == Focus::Flush {
+            let sizes: &[(usize, usize)] = if ctx.tier_thorough { &[(4096, 3000), (8192, 5000), (70_000, 66_000), (4096, 1100)] } else { &[(4096, 3000), (8192, 2100)] };
+            for &(cap, backlog) in sizes {
+                for kind in 0..2u8 {
+                    let p = StressPlan { cap, kind, threads: 1, per_thread: backlog, stall: true, flush_every: backlog, interval_us: if kind == 0 { 1_000_000 } else { 100 }, val_every: 0, seed: (rng.next() & !3) | 2 };
+                    u.count("stress_backlog_then_flush");
+                    emit_stress(&mut u, &p);
+                }
+            }
         }
     }
     s.finish(rule);
